@@ -8,7 +8,8 @@ EXPLANATION = ("Contract on the real body of create_header (with ReuseInfo.union
                "expressions U requested, old contributors U requested), and the reader finds exactly those notices and expressions in "
                "it. Histories of the real command are compared with a running model by the bounded sequence runs; holders and year "
                "spans under --merge-copyrights by those runs and by C20's merge enumeration.")
-FUNCTIONS = ["reuse.header.create_header", "reuse.header._create_new_header"]
+FUNCTIONS = ["reuse.header.create_header", "reuse.header._create_new_header",
+             "reuse.header._find_first_spdx_comment"]     # the old header handed to create_header is the whole located block
 MODULES = ("contracts.report", "contracts.cli", "contracts.annotate", "contracts.copyright", "contracts.header")
 
 
@@ -23,3 +24,5 @@ def run(ctx):
                "block is located is C10 / C08")
     ctx.assume("merge_copyright_lines is a ghost function here; its holder and year preservation is the bounded merge check")
     ctx.assume("information outside the first header block or beyond the 4 KiB window is not re-read by annotate (it stays in the file)")
+    ctx.assume("a header that has outgrown the reader's 4 KiB window is read only partly by lint (a limit of the tool, DESIGN 5): the "
+               "long-header histories therefore compare what the same reader finds in the whole file")
